@@ -13,6 +13,19 @@ ID = "C12"
 PROPS_FILE = "Props/C12.v"
 COQ_TARGETS = ["Harness/H12.vo"]
 ALLOWED_AXIOMS = []
+# second tie (translator): coq/Gen/Core.v is regenerated from the source text of C.REPO on every run and
+# coq/Tie/T12.v proves generated definition = hand model (harness/translate/py2coq_core.py)
+EXTRA_PROPS = ["Tie/T12.v"]
+
+
+def prebuild(ctx):
+    import os
+    import sys
+    sys.path.insert(0, os.path.join(C.VERIF, "harness", "translate"))
+    import py2coq_core
+    py2coq_core.prebuild(ctx, C, ["_chunks"])
+
+
 META = {
     "level_text": "Machine-checked proofs (Coq) about executable models of the parallel evaluation code: _chunks (concat = input, chunk sizes, n<=0); "
                   "Submit/Apply evaluators as write-once cells filled in ANY order and read in submission order (collect_in_order, also with the reader "
